@@ -62,6 +62,19 @@ pub fn workload(big: bool) -> impl Strategy<Value = Workload> {
 		.prop_map(|(clients, always_flush, shutdown_early, iter)| Workload { clients, always_flush, shutdown_early, iter })
 }
 
+/// Transactions of 40-75 values of 1 MiB each: two of them exceed the 128 MiB limit of
+/// logged-but-unapplied bytes, so the log worker is throttled on the log queue (released only
+/// by the commit worker applying records, or by shutdown).
+pub fn workload_giant() -> impl Strategy<Value = Workload> {
+	let tx = (40u16..75, 0u16..100).prop_map(|(n, start)| (0..n).map(|i| (start + i, 5u8)).collect::<Vec<_>>());
+	let small = proptest::collection::vec((0u16..12, 0u8..4), 1..=3);
+	let client = (proptest::collection::vec(tx, 3..=4), proptest::collection::vec(small, 0..3)).prop_map(|(mut big, small)| {
+		big.extend(small);
+		big
+	});
+	(proptest::collection::vec(client, 1..=1), any::<bool>(), prop_oneof![1 => Just(false), 2 => Just(true)]).prop_map(|(clients, always_flush, shutdown_early)| Workload { clients, always_flush, shutdown_early, iter: (0, 0) })
+}
+
 fn options(dir: &Path, wl: &Workload, background: bool) -> Options {
 	let mut o = Options::with_columns(dir, 1);
 	o.columns[0] = ColumnOptions::default();
@@ -88,6 +101,7 @@ pub fn execute(wl: Arc<Workload>, base: &Path) {
 	// loops run on shuttle threads through the verif hook
 	let db = Arc::new(Db::open_read_only(&options(&dir, &wl, true)).expect("open"));
 	let busy = Arc::new(AtomicU64::new(0));
+	let over = Arc::new(AtomicU64::new(0));
 	let mut workers = Vec::new();
 	for i in 0..4u8 {
 		let db = db.clone();
@@ -98,11 +112,15 @@ pub fn execute(wl: Arc<Workload>, base: &Path) {
 		let db = db.clone();
 		let script = script.clone();
 		let busy = busy.clone();
+		let over = over.clone();
 		clients.push(thread::spawn(move || {
 			for (t, tx) in script.iter().enumerate() {
 				let st = db.verif_pipeline_state();
 				if st.0 > 0 || st.2 > 0 {
 					busy.fetch_add(1, Ordering::SeqCst);
+				}
+				if st.2 > 128 << 20 {
+					over.fetch_add(1, Ordering::SeqCst);
 				}
 				let items: Vec<(u8, Vec<u8>, Option<Vec<u8>>)> = tx.iter().map(|(k, cl)| (0u8, key(c, *k), Some(value(*k, *cl, c, t)))).collect();
 				if let Err(e) = db.commit(items) {
@@ -146,6 +164,9 @@ pub fn execute(wl: Arc<Workload>, base: &Path) {
 			if st.5 {
 				violation("background-error", "a worker stored a background error".to_string());
 			}
+			if st.2 > 128 << 20 {
+				over.fetch_add(1, Ordering::SeqCst);
+			}
 			let drained = st.0 == 0 && (!wl.always_flush || (st.2 <= 0 && !st.4));
 			if drained {
 				break
@@ -162,6 +183,9 @@ pub fn execute(wl: Arc<Workload>, base: &Path) {
 	}
 	if busy.load(Ordering::SeqCst) > 0 {
 		NONTRIVIAL.fetch_add(1, Ordering::SeqCst);
+	}
+	if over.load(Ordering::SeqCst) > 0 || db.verif_pipeline_state().2 > 128 << 20 {
+		LOGQ_OVER_LIMIT.fetch_add(1, Ordering::SeqCst);
 	}
 	// (4) shutdown terminates
 	db.verif_shutdown();
